@@ -2,7 +2,7 @@ package main
 
 var stubCommon = []string{
 	"kernel sockets (replaced by simnet stream/datagram/listener objects)",
-	"every dial path: Client.Dial*, Transfer.In's dial, ListenAndServe's listenTCP/listenUDP (the harness hands the library ready-made connections and listeners)",
+	"the operating system's listen and connect calls: in the instrumented builds listenTCP / listenUDP and the dial sites of client.go ask a socket seam of the simulator, so ListenAndServe (C13), Client.Exchange / ExchangeContext / Dial / DialContext (C12) and Transfer.In without a preset connection (C15, C11) run real code up to that call; in the unmodified-tree builds the harness hands the library ready-made connections and listeners. Never reached: DialWithTLS / DialTimeoutWithTLS, the package-level Dial / Exchange / ExchangeContext helpers, ListenAndServeTLS",
 	"the setsockopt calls of setUDPSocketOptions; in the unmodified-tree builds also the rest of the *net.UDPConn-only path (readUDP, SessionUDP, control messages) - the instrumented builds run it over simnet.UDPConn through an interface substituted for *net.UDPConn",
 }
 
@@ -10,7 +10,7 @@ func init() {
 	cfgs["C13"] = &propCfg{
 		Workers: map[string]int{"pristine": 4, "instr": 5, "pristine-race": 3, "instr-race": 4},
 		QuickS:  35, ThorS: 600,
-		Real: []string{"Server.ActivateAndServe", "serveTCP", "serveUDP (generic PacketConn branch; UDP socket branch with readUDP/ReadFromSessionUDP/WriteToSessionUDP/correctSource in the instrumented builds)", "serveTCPConn", "serveUDPPacket", "serveDNS", "readTCP", "readPacketConn", "response.WriteMsg/Write/Close", "Shutdown/ShutdownContext", "Conn.WriteMsg/ReadMsg (client side)", "Msg.Pack/Unpack"},
+		Real: []string{"Server.ActivateAndServe", "Server.ListenAndServe (tcp, tcp-tls, udp; instrumented builds, socket seam)", "serveTCP", "serveUDP (generic PacketConn branch; UDP socket branch with readUDP/ReadFromSessionUDP/WriteToSessionUDP/correctSource in the instrumented builds)", "serveTCPConn", "serveUDPPacket", "serveDNS", "readTCP", "readPacketConn", "response.WriteMsg/Write/Close", "Shutdown/ShutdownContext", "Conn.WriteMsg/ReadMsg (client side)", "Msg.Pack/Unpack"},
 		Stub: stubCommon,
 		Rule: "A run = one generated lifecycle scenario (transport, 0..k clients with query/partial/idle/close/reset operations, handler plans, start/second start/early shutdown/Shutdown or ShutdownContext/concurrent and repeated shutdowns) executed under one seeded schedule. Non-trivial = at least one handler ran or a misuse call (second start, extra shutdown) was made. Distinct = distinct trace digest (hash of every scheduling decision, seam call and effect of the run), counted per build.",
 		Assume: append([]string{
@@ -25,7 +25,7 @@ func init() {
 	cfgs["C18"] = &propCfg{
 		Workers: map[string]int{"pristine": 12, "pristine-race": 4},
 		QuickS:  25, ThorS: 420,
-		Real: []string{"SIG.Sign", "SIG.Verify", "Msg.Pack/PackBuffer/Unpack", "PackRR", "KEY.NewPrivateKey / ReadPrivateKey (fixed test keys)", "crypto/rsa, crypto/ecdsa, crypto/ed25519"},
+		Real: []string{"SIG.Sign", "SIG.Verify", "(cross-checked by oracle/sig0.go, an independent RFC 2931 signer and verifier)", "Msg.Pack/PackBuffer/Unpack", "PackRR", "KEY.NewPrivateKey / ReadPrivateKey (fixed test keys)", "crypto/rsa, crypto/ecdsa, crypto/ed25519"},
 		Stub: []string{"the network between signer and verifier is a byte buffer with injected bit flips, truncation and delay (no sockets are involved in SIG(0) itself)"},
 		Rule: "A run = one generated message (recipe over a corpus of ~70 record types, compressed or not, up to ~60 KiB, including 254..300 additional records) signed with one of 12 fixed keys (RSASHA1/256/512, ECDSA P-256/P-384, Ed25519) at a simulated instant, then 1..6 deliveries, each with a fault (bit flip in a named region, truncation, other key, key with another owner) and a verification instant relative to the validity window (before, at inception, inside, at expiration, after, far later at 2^16 / 2^17 / 2^24 s + d; windows of 0 s, inverted windows). About one run in twelve instead lets 2..4 signer/verifier pairs with their own keys work concurrently under the seeded scheduler (a quarter of the workers run under the race detector). Non-trivial = the message was signed and at least one delivery was judged. Distinct = distinct digest of (scenario outcome log).",
 		Assume: []string{
@@ -55,7 +55,7 @@ func init() {
 	cfgs["C12"] = &propCfg{
 		Workers: map[string]int{"pristine": 7, "instr": 5, "pristine-race": 2, "instr-race": 2},
 		QuickS:  35, ThorS: 600,
-		Real: []string{"Server (TCP on a simulated listener + UDP on a simulated PacketConn, same handler)", "serveTCPConn/readTCP, serveUDP/readPacketConn/serveUDPPacket, serveDNS, udpPool", "response.WriteMsg/Write", "Client.ExchangeWithConn / ExchangeWithConnContext", "Conn.WriteMsg / Write / ReadMsg / ReadMsgHeader / Read", "Msg.Pack/Unpack"},
+		Real: []string{"Server (TCP on a simulated listener + UDP on a simulated PacketConn, same handler)", "serveTCPConn/readTCP, serveUDP/readPacketConn/serveUDPPacket, serveDNS, udpPool", "response.WriteMsg/Write", "Client.ExchangeWithConn / ExchangeWithConnContext", "Client.Exchange / ExchangeContext / Dial / DialContext (instrumented builds, socket seam)", "Conn.WriteMsg / Write / ReadMsg / ReadMsgHeader / Read", "Server.DecorateWriter / DecorateReader products", "Msg.Pack/Unpack"},
 		Stub: stubCommon,
 		Rule: "A run is either an 'exchange' scenario (1..8 concurrent clients over udp or tcp, 1..6 exchanges each on a reused connection, request and reply sizes from the boundary set {min,40,100,511..513,1231..1233,4095..4097,16383..16385,65534,65535}, handler variants normal/slow/wrong-ID/twice/silent/oversize/wrong-then-right, forged foreign-ID datagrams, drop/dup/delay, segmentation, short reads) or a 'framing' scenario (one writer using WriteMsg or Write, one reader using ReadMsg, ReadMsgHeader or Read, 1..5 messages incl. >65535, stream cut by EOF or RST at any octet, small receive windows), each under one seeded schedule. Non-trivial = at least one exchange or message was attempted. Distinct = distinct trace digest per build.",
 		Assume: append([]string{
@@ -69,7 +69,7 @@ func init() {
 	cfgs["C14"] = &propCfg{
 		Workers: map[string]int{"pristine": 6, "instr": 6, "pristine-race": 2, "instr-race": 2},
 		QuickS:  30, ThorS: 600,
-		Real: []string{"Server.serveUDP/serveTCPConn/serveDNS (header parse, accept policy switch, reject reply construction, MsgInvalidFunc reporting)", "DefaultMsgAcceptFunc", "ServeMux.Handle/HandleRemove/ServeDNS/match", "handleRefused, SetReply/SetRcode/SetRcodeFormatError", "Msg.Unpack/Pack"},
+		Real: []string{"Server.serveUDP/serveTCPConn/serveDNS (header parse, accept policy switch, reject reply construction, MsgInvalidFunc reporting)", "DefaultMsgAcceptFunc", "ServeMux.Handle/HandleFunc/HandleRemove/ServeDNS/match, also through DefaultServeMux and the package-level Handle/HandleFunc/HandleRemove", "handleRefused, SetReply/SetRcode/SetRcodeFormatError", "Msg.Unpack/Pack"},
 		Stub: stubCommon,
 		Rule: "A run is either an 'admission' scenario (1..40 inbound packets from 1..3 Byzantine peers over UDP or TCP: valid queries of many shapes, every opcode, QR set, NOTIFY with an answer, IXFR with an authority record, 0..3 additional records, two questions, then truncation to any length, bit flips, section-count lies, compression-pointer rewrites, splices, header-only, trailing garbage, zero-length frames; default or random accept policy; datagram duplication; segmentation; yielding accept policy) or a 'mux' scenario (2..4 tasks issuing 4..36 Handle / HandleRemove / ServeDNS operations on one real ServeMux over a 3-label alphabet with mixed case, DS and non-DS types, handlers that park). Non-trivial = at least one packet was read by the server / one mux operation ran. Distinct = distinct trace digest per build.",
 		Assume: append([]string{
@@ -84,7 +84,7 @@ func init() {
 	cfgs["C15"] = &propCfg{
 		Workers: map[string]int{"pristine": 9, "instr": 7},
 		QuickS:  35, ThorS: 600,
-		Real: []string{"Transfer.In (preset Conn), inAxfr, inIxfr, Transfer.ReadMsg/WriteMsg", "Transfer.Out + Server + response.WriteMsg/TsigTimersOnly (sender 'out')", "TsigGenerateWithProvider / TsigVerifyWithProvider", "Conn.Read/Write framing", "Msg.Pack/Unpack"},
+		Real: []string{"Transfer.In (preset Conn; its own dial in the instrumented builds), inAxfr, inIxfr, Transfer.ReadMsg/WriteMsg", "Transfer.Out + Server + response.WriteMsg/TsigTimersOnly (sender 'out')", "TsigGenerateWithProvider / TsigVerifyWithProvider", "Conn.Read/Write framing", "Msg.Pack/Unpack"},
 		Stub: append([]string{"sender 'scripted': a harness task that packs envelopes with Msg.Pack and signs them with the independent RFC 8945 signer (oracle/tsig.go)", "the middlebox: a harness task pair with its own frame parser"}, stubCommon...),
 		Rule: "A run = one transfer session: AXFR, incremental IXFR with 1..3 difference sequences, AXFR-style IXFR or the single-SOA 'up to date' answer, 0..60 records, a composition of the record sequence into envelopes (one record per envelope, all in one, or random cuts), sender = real Server+Transfer.Out or scripted, with or without TSIG (five HMAC algorithms, mixed-case algorithm names, fudge 1..300), then either benign link behaviour (segmentation, short reads, delay) or faults: middlebox drop/dup/swap/bit-flip by region/ID rewrite/RCODE rewrite/un-sign/re-sign with another key/stall/delay across the fudge boundary, stream cut by EOF or RST at any octet, scripted non-SOA first record, error RCODE in any envelope, wrong ID, trailing envelope. Non-trivial = every run. Distinct = distinct trace digest per build.",
 		Assume: append([]string{
